@@ -133,8 +133,10 @@ DynLogs ==
         \ {LD(TRUE, <<>>, <<>>, cut) : cut \in (DynCuts \ {0})})
     \cup {LD(FALSE, <<>>, <<"W32", "W32", "R1">>, 0)}
 
-MultiTopics == {<<>>, <<"R1">>, <<"R1", "W1">>, <<"Z", "W1">>, <<"R1", "Z">>, <<"R1", "W1", "R2", "WFF">>}
-MultiData == {<<>>, <<"W1">>, <<"W1", "W64", "W32", "R1">>, <<"W32", "W64", "W32", "R1">>, <<"W1", "WU64">>, <<"Z", "W64", "WMEGA", "R1">>}
+MultiTopics == {<<>>, <<"R1", "W1">>, <<"Z", "W1">>, <<"R1", "W1", "R2", "WFF">>}
+               \cup (IF Th THEN {<<"R1">>, <<"R1", "Z">>} ELSE {})
+MultiData == {<<>>, <<"W1", "W64", "W32", "R1">>, <<"W32", "W64", "W32", "R1">>, <<"Z", "W64", "WMEGA", "R1">>}
+             \cup (IF Th THEN {<<"W1">>, <<"W1", "WU64">>} ELSE {})
 MultiLogs ==
     {LD(TRUE, t, w, 0) : t \in MultiTopics, w \in MultiData}
     \cup {LD(TRUE, <<"R1", "W1", "R2", "WFF">>, <<"W1", "W64", "W32", "R1">>, cut) : cut \in {1, 32}}
